@@ -40,6 +40,37 @@ func partialChain(got, want []dns.RR) bool {
 	return false
 }
 
+// securePrefixOnly: the reply's answer section is an exact, proper prefix of
+// the published alias chain (the target could not be obtained) and every hop
+// in it is secure in the model. Every RRset of such a reply can have been
+// validated, so AD on it is legitimate even though the COMPLETE chain runs
+// into an insecure zone.
+func securePrefixOnly(reply *dns.Msg, e expectation) bool {
+	if e.mustFail {
+		return false
+	}
+	var got []dns.RR
+	hops := 0
+	for _, rr := range reply.Answer {
+		switch rr.Header().Rrtype {
+		case dns.TypeRRSIG, dns.TypeNSEC, dns.TypeNSEC3:
+			continue
+		case dns.TypeCNAME:
+			hops++ // one CNAME (real or DNAME-synthesised) per hop
+		}
+		got = append(got, rr)
+	}
+	if hops == 0 || !partialChain(got, e.res.Answer) || hops > len(e.res.Steps) {
+		return false
+	}
+	for i := 0; i < hops; i++ {
+		if e.res.Steps[i].Status != zm.Secure {
+			return false
+		}
+	}
+	return true
+}
+
 // expectation is what the model says about one question in one world.
 type expectation struct {
 	res zm.Resolution
@@ -177,6 +208,9 @@ type judgeCtx struct {
 	phase        string // control | tampered | followup | cleared | victim
 	kind         string // tamper kind ("" for control)
 	role         string
+	// path narrows the signature of an untampered history to the serving path
+	// that produced the reply (e.g. "wire-alias-chase"); "" = not narrowed.
+	path string
 }
 
 func judge(reply *dns.Msg, c judgeCtx) judgement {
@@ -187,6 +221,9 @@ func judge(reply *dns.Msg, c judgeCtx) judgement {
 	}
 	eligible := (c.q.DO || c.q.AD) && !c.q.CD
 	tag := c.phase
+	if c.path != "" {
+		tag += "/" + c.path
+	}
 	if c.kind != "" {
 		// one root cause, one signature: the phases of a forged history
 		// (first reply, cache-served follow-ups, after withdrawal) share it
@@ -205,7 +242,7 @@ func judge(reply *dns.Msg, c judgeCtx) judgement {
 		// Not under an unbroken signed chain: the statement promises nothing
 		// about the data; only that it is never presented as authenticated.
 		j.Class = "INSECURE"
-		if reply.AuthenticatedData {
+		if reply.AuthenticatedData && !securePrefixOnly(reply, c.e) {
 			j.Sig = "ad/set-on-insecure-path/" + tag
 			if c.e.islandChild && c.kind != "forge-nx-parent-nsec" {
 				// one root cause whatever else the case did (FINDINGS.md #3)
